@@ -6,14 +6,15 @@
   R-CHAR-ELISP     every printable ASCII character written by write_elisp_char (with or without the
                    backslash chosen from ELISP_ESCAPE_CHARS) is read back as itself by parse_elisp_char
   R-HASH-TOKENS    every `#` token the printer has a constant for is dispatched to the right token kind
-  R-OCTAL          the unibyte-string printer's digit table is "01234567" on the indices it uses
+  R-BYTES-ELISP    every byte of a byte vector is written as `\\ooo` in Emacs Lisp syntax and decoded back (256 values;
+                   replaces the former digit-table check R-OCTAL, which it subsumes)
   R-NULL-TEXT      the empty list is printed as `()` under every printer option value (only Nil and booleans
                    are subject to the documented nil/t folding)
   R-RESCAN         with leading-digit symbols every digit-initial token is offered to the numeric sub-parser
                    unconditionally (no textual pre-filter decides between number and symbol)
 Not decided: the option cross product as behaviour, nil/t folding, values.
 """
-from .. import facts as F, roundtrip
+from .. import facts as F, lex, roundtrip
 
 
 def run(ctx):
@@ -45,14 +46,7 @@ def run(ctx):
     nil_as_false(ctx, lexpr)
     bytes_elisp(ctx, lexpr)
     rescan(ctx, lexpr)
-    r5 = ctx.rule("R-OCTAL", "octal digit table of the unibyte string printer")
-    oc = lexpr.static_bytes("<print::CustomizedFormatter as print::Formatter>::write_bytes::OCTAL_CHARS")
-    if oc is None:
-        r5.anchor_missing("OCTAL_CHARS")
-    elif bytes(oc[:8]) == b"01234567":
-        r5.ok("OCTAL_CHARS[0..8] == \"01234567\"")
-    else:
-        r5.violation("print::OCTAL_CHARS", "octal-table", "OCTAL_CHARS[0..8] is %r" % bytes(oc[:8]))
+
 
 
 def null_text(ctx, lexpr):
@@ -86,7 +80,7 @@ def null_text(ctx, lexpr):
                         return v
                 return None
             S = sim.Sim([lexpr], hooks={"opaque": opaque},
-                        inline=lambda a, b: b.file.endswith("print.rs") and ("write_" in b.path or b.path in fwd))
+                        inline=lex.print_inline(lexpr))
             texts = set()
             for p in S.run(f):
                 if p.end != "return":
@@ -141,7 +135,7 @@ def bytes_elisp(ctx, lexpr):
     n = 0
     for b in range(256):
         S = sim.Sim([lexpr], hooks={"opaque": opaque, "call": hook},
-                    inline=lambda a, c: c.file.endswith("print.rs") and c.path in fwd, max_visits=8, max_paths=2000)
+                    inline=lex.print_inline(lexpr), max_visits=8, max_paths=2000)
         texts = set()
         try:
             for p in S.run(wf, args={3: Ref([Bytes([b])], 0, ())}):
@@ -214,7 +208,7 @@ def nil_as_false(ctx, lexpr):
 
         def text(f, args):
             S = sim.Sim([lexpr], hooks={"opaque": opaque},
-                        inline=lambda a, b: b.file.endswith("print.rs") and ("write_" in b.path or b.path in fwd))
+                        inline=lex.print_inline(lexpr))
             out = set()
             for p in S.run(f, args=args):
                 if p.end != "return":
